@@ -16,13 +16,13 @@ Section FINAL.
      at the declared types, reports the parameter as found, and no error *)
   Theorem deep_decode_roundtrip_full : forall name s ms p q',
     no_byte "["%char name = true -> names_ok s = true -> no_ap s = true ->
-    wfv (VObj ms) -> keys_ok (VObj ms) -> texts_ok (ser [] (VObj ms)) = true ->
+    wfv (VObj ms) -> nek (VObj ms) -> keys_ok (VObj ms) -> texts_ok (ser [] (VObj ms)) = true ->
     declared_all s (VObj ms) ->
     reading parse_int64 parse_int32 parse_float s (VObj ms) = Some p ->
     Permutation (query_of name (ser [] (VObj ms))) q' ->
     deep_decode parse_int64 parse_int32 parse_float atoi name s q' = DRes p true None.
   Proof.
-    intros name s ms p q' Hname Hn Hap Hw Hk Ht Hda Hr Hp.
+    intros name s ms p q' Hname Hn Hap Hw Hnek Hk Ht Hda Hr Hp.
     assert (Hpaths : Forall (fun pt : list string * string => fst pt <> [] /\ Forall (fun k => no_byte "]"%char k = true) (fst pt)) (ser [] (VObj ms))).
     { pose proof (ser_paths_deeper (VObj ms) name I) as H1. pose proof (ser_paths_ok (VObj ms) [] Hk (Forall_nil _)) as H2.
       rewrite Forall_forall in *. intros pt Hin. split.
@@ -30,13 +30,13 @@ Section FINAL.
       - apply (H2 pt Hin). }
     assert (Hprops : Permutation (ser [] (VObj ms)) (deep_props name q')).
     { rewrite <- (deep_props_query_of name _ Hname Hpaths) at 1. unfold deep_props. now apply Permutation_flat_map. }
-    destruct (make_object_roundtrip_any_order parse_int64 parse_int32 parse_float atoi atoi_itoa s ms p _ Hn Hap Hw Ht Hr Hprops) as (tree & Hm & Hb).
+    destruct (make_object_roundtrip_any_order parse_int64 parse_int32 parse_float atoi atoi_itoa s ms p _ Hn Hap Hw Hnek Ht Hr Hprops) as (tree & Hm & Hb).
     pose proof (paths_found parse_int64 parse_int32 parse_float s (VObj ms) p Hr Hda Hw) as Hfound.
     unfold deep_decode.
     destruct (deep_props name q') as [|pt rest] eqn:Ep.
     { exfalso. apply Permutation_sym, Permutation_nil in Hprops. apply (ser_nonempty (VObj ms) [] Hw Hprops). }
     rewrite Hm, Hb.
-    destruct s as [c|it|decl [a|]]; cbn [reading] in Hr; try discriminate.
+    destruct s as [c|it|decl [a|]]; cbn [no_ap] in Hap; rewrite ?andb_false_r in Hap; try discriminate Hap; cbn [reading] in Hr; try discriminate.
     destruct (obj_loop _ decl []) as [m|]; cbn in Hr; [|discriminate]. inversion Hr; subst p.
     (* some property is declared: the value has a member and all members are declared *)
     destruct decl as [|d0 decl'].
